@@ -49,7 +49,7 @@ Arguments Panic {A} _.
 Definition rbind {A B} (r : res A) (f : A -> res B) : res B :=
   match r with Ok a => f a | Fail c => Fail c | Panic c => Panic c end.
 
-Notation "x <- r ;; k" := (rbind r (fun x => k))
-  (at level 61, r at next level, right associativity).
+Notation "'let?' x := r 'in' k" := (rbind r (fun x => k))
+  (at level 200, x name, r at level 100, k at level 200, only parsing).
 
 Definition is_ok {A} (r : res A) : bool := match r with Ok _ => true | _ => false end.
